@@ -39,9 +39,9 @@ Proof.
   intros i H L. pose proof (proj1 (forallb_forall _ _) short_cryst1_roundtrip i (in_upto i 230 H)) as E. simpl in E.
   rewrite L in E. simpl in E. destruct (cryst1_roundtrip i) as [j|]; [|discriminate]. apply Nat.eqb_eq in E. now subst.
 Qed.
-(* ... and the fourteen groups with longer symbols (origin choice ":2") do not: the known finding, stated exactly *)
+(* ... and the ten groups with symbols of more than eleven characters (origin choice ":2") do not: the known finding, stated exactly *)
 Theorem C17_cryst1_known_long_symbols :
-  filter long_symbol (upto 230) = [125; 126; 129; 130; 133; 134; 137; 138; 141; 142; 222; 224; 227; 228]%nat /\
+  filter long_symbol (upto 230) = [125; 126; 129; 130; 133; 134; 137; 138; 141; 142]%nat /\
   forall i, In i (filter long_symbol (upto 230)) -> cryst1_roundtrip i <> Some i.
 Proof.
   split; [exact long_symbols_are|]. intros i H E.
